@@ -37,6 +37,7 @@ package runner
 // is accepted iff all of them are (no masking).
 //@ func (*StepAmalgamated).Run
 //@   property C10 C16
+//@   reports_all
 //@   requires [wired] forall j int :: 0 <= j && j < len(s.steps) ==> s.steps[j] != nil
 //@   modifies *i, *o
 //@   ensures [runs_all_in_order] tlen() == old(tlen()) + len(s.steps)
@@ -173,6 +174,7 @@ package runner
 
 //@ func (*StepReadConfig).Run
 //@   property C12 C09 C04
+//@   reports_all
 //@   requires [wired] s.printer != nil && i != nil
 //@   modifies *i
 //@   ensures [no_patterns_nothing_merged] len(s.patterns) == 0 ==> *i == old(*i)
